@@ -31,6 +31,7 @@ type hcase struct {
 	// InPlace: edits are applied to the project directory as it stands (no re-materialisation
 	// between operations), so that directory and file modification times have a real history
 	InPlace bool `json:"in_place,omitempty"`
+	Env     int  `json:"ambient_env,omitempty"` // > 0: every binary invocation runs with that core.HostileEnv variant
 }
 
 func (h hcase) key() string {
@@ -65,6 +66,8 @@ func execHistory(c *core.Ctx, sb *sandbox, h hcase, prop string) ([]core.Violati
 	sawForcedUp := false
 	shape := h.Shape
 	sb.materialise(shape, st)
+	sb.fixedEnv = h.Env
+	defer func() { sb.fixedEnv = 0 }()
 	for i, op := range h.Ops {
 		if op.Kind == "spokfile" {
 			// the user edits the spokfile: a task's declared dependencies change
@@ -452,6 +455,7 @@ func randHistory(r *core.Rng, length int) hcase {
 }
 
 func histRandom(c *core.Ctx, sb *sandbox, res *core.ShardResult, wl *core.WLog) {
+	defer histAmbient(c, sb, res, wl)
 	total := c.Q(320, 5000)
 	length := c.Q(14, 25)
 	wl.Block(0)
@@ -520,6 +524,47 @@ func histRandom(c *core.Ctx, sb *sandbox, res *core.ShardResult, wl *core.WLog) 
 				v.Key = hh.key()
 				v.Case = core.JSON(hh)
 				res.Violate(v)
+			}
+		}
+	}
+}
+
+// histAmbient runs, through the binary, "build everything, then build everything with --force" (and the
+// same without --force) on a few shapes under every ambient-environment variant: variables that look like
+// switches (SPOK_FORCE=0 ...) or that CI systems set must not change what a run does.
+func histAmbient(c *core.Ctx, sb *sandbox, res *core.ShardResult, wl *core.WLog) {
+	wl.Block(1)
+	n := 0
+	for si, shape := range []hshape{histShapes[0], histShapes[2], histShapes[4]} {
+		for variant := 1; variant <= 3; variant++ {
+			for _, force := range []bool{true, false} {
+				n++
+				if n%c.NShards != c.Shard {
+					continue
+				}
+				var all []string
+				for _, t := range shape.Tasks {
+					all = append(all, t.Name)
+				}
+				h := hcase{Shape: shape, Via: "binary", Env: variant}
+				for _, f := range shape.Files {
+					h.Ops = append(h.Ops, hop{Kind: "write", File: f, Value: "v1"})
+				}
+				h.Ops = append(h.Ops, hop{Kind: "run", Tasks: all}, hop{Kind: "run", Tasks: all, Force: force}, hop{Kind: "run", Tasks: all})
+				if !wl.Always(1, n, func() any { return h }) {
+					continue
+				}
+				vs, stats := execHistory(c, sb, h, c.Prop)
+				res.Evaluations += int64(stats.Runs)
+				res.Count("ambient_environment_histories", 1)
+				res.Count("skips_observed", int64(stats.Skips))
+				res.Count("executions_observed", int64(stats.Reruns))
+				for _, v := range vs {
+					v.Key = h.key() + fmt.Sprintf(" | ambient environment variant %d", variant)
+					v.Case = core.JSON(h)
+					res.Violate(v)
+				}
+				_ = si
 			}
 		}
 	}
